@@ -67,27 +67,45 @@ def validate(name):
 
 
 def check(name, props=None):
+    """run the quick check(s) against the mutant in an ISOLATED copy: /tmp/seedrun_<name>/{verif,repo}
+    (a copy of /verif incl. its build output and a scratch worktree of /repo with the patch applied),
+    so that /repo and /verif stay untouched and several mutants can be examined in parallel."""
     m = load_meta(name)
     d = os.path.join(SEED, name)
-    rc, st = sh("git -C /repo status --porcelain")
-    if st.strip():
-        raise SystemExit("/repo is not clean: " + st)
-    ok, pout = apply_patch("/repo", os.path.join(d, "patch.diff"))
+    base = f"/tmp/seedrun_{name}"
+    sh(f"git -C /repo worktree remove --force {base}/repo")
+    sh(f"rm -rf {base}")
+    os.makedirs(base)
     res = {}
     try:
+        sh(f"rsync -a --exclude .git --exclude replays {VERIF}/ {base}/verif/")
+        rc, out = sh(f"git -C /repo worktree add -q --detach {base}/repo HEAD")
+        ok, pout = apply_patch(f"{base}/repo", os.path.join(d, "patch.diff"))
         if not ok:
             m["check"] = {"error": "patch does not apply: " + pout[-300:]}
         else:
             for pid in (props or [m["property"]]):
                 t0 = time.time()
-                env = dict(os.environ, VERIF_EVIDENCE_DIR=f"/tmp/seeded_evidence/{name}", VERIF_REPLAY_DIR=f"/tmp/seeded_evidence/{name}/replays")
-                rc, out = sh(f"./check {pid} --tier quick", cwd=VERIF, timeout=7200, env=env)
+                env = dict(os.environ, RD_REPO=f"{base}/repo")
+                rc, out = sh(f"./check {pid} --tier quick", cwd=f"{base}/verif", timeout=7200, env=env)
                 lines = [l for l in out.splitlines() if l.startswith(("VIOLATION", "KNOWN-FINDING", "["))]
+                rep = None
+                for l in lines:
+                    if l.startswith("VIOLATION"):
+                        path = l.split("replay=")[1].split()[0]
+                        try:
+                            rp = json.load(open(path))
+                            rep = {k: rp[k] for k in ("fails", "broken", "input", "functions", "failing_components") if k in rp}
+                        except Exception:
+                            pass
+                        break
                 res[pid] = {"exit": rc, "caught": rc == 1 and any(l.startswith("VIOLATION") for l in lines),
-                            "lines": lines[:8], "wall_s": round(time.time() - t0)}
+                            "lines": [l[:300] for l in lines[:6]], "first_replay": rep, "wall_s": round(time.time() - t0)}
             m.setdefault("check", {}).update(res)
+            m["check_how"] = "tools/run_seeded.py check: isolated copy of /verif + scratch worktree of /repo with the patch (RD_REPO), removed afterwards"
     finally:
-        sh("git -C /repo checkout -- . && git -C /repo clean -fdq -- radioactivedecay")
+        sh(f"git -C /repo worktree remove --force {base}/repo")
+        sh(f"rm -rf {base}")
     save_meta(name, m)
     return m
 
